@@ -5,22 +5,22 @@ from . import spec as S
 from .vals import *
 
 
-_qcache = {}
-
-
-def has_quantifier(e):
+def has_quantifier(e, memo=None):
+    """memo is per call: z3 ast ids are only unique among live terms"""
+    if memo is None:
+        memo = {}
     k = e.get_id()
-    if k in _qcache:
-        return _qcache[k]
+    if k in memo:
+        return memo[k]
     r = False
     if z3.is_quantifier(e):
         r = True
     else:
         for ch in e.children():
-            if has_quantifier(ch):
+            if has_quantifier(ch, memo):
                 r = True
                 break
-    _qcache[k] = r
+    memo[k] = r
     return r
 
 
